@@ -1,6 +1,7 @@
 import PysphVerif.Lemmas.PArrayStep
 import PysphVerif.Lemmas.PArrayParticles
 import PysphVerif.Lemmas.PArrayConsts
+import PysphVerif.Lemmas.PArraySpecOps
 /-!
 # C06 — a particle array stays coherent under any sequence of operations
 
@@ -387,5 +388,348 @@ example : (((run [.new "c", .addProperty 0 "x" "double" none none 1,
       (fun pa => pa.addProperty "x" "double" none none 3)).map
       (fun pa => (pa.n, pa.strideOf "x", (pa.props.filter (·.name == "x")).map (·.data.length)))
     = some (2, 3, [2]) := by decide
+
+/-! ## G. extract / remove-tagged at the record level, conservation -/
+
+/-- the definition of `copyFields`: the listed fields from the source record,
+the destination's default elsewhere (in the destination's field order) -/
+theorem copyFields_def (names : List String) (src dflt : Rec) :
+    copyFields names src dflt =
+      dflt.map (fun f => if names.contains f.1 then (f.1, lookupD src f.1 []) else f) := rfl
+
+/-- **`extract_particles(idx, dest, align=False, props)`**: with the copied
+properties of equal stride in both arrays (as `validOp` demands) and indices in
+range, the destination keeps its records and gets one new record per index, in
+the order of `idx`: the copied fields are those of source record `i`, the other
+fields the destination's defaults.  (The source is not an output of the
+operation: it is unchanged.) -/
+theorem extract_particles_spec {pa dest dest' : PA} (h : Inv pa) (hd : Inv dest) (idx : List Nat)
+    (props : Option (List String))
+    (hss : ∀ nm ∈ cloneNames pa props, pa.strideOf nm = dest.strideOf nm)
+    (hin : ∀ i ∈ idx, i < pa.n)
+    (hr : pa.extractInto idx dest false props = some dest') :
+    dest'.n = dest.n + idx.length ∧
+    particles dest' = particles dest ++
+      idx.map (fun i => copyFields (cloneNames pa props) ((particles pa).getD i [])
+        (defaultParticle dest)) := by
+  obtain ⟨h1, h2⟩ := extractInto_particles h hd idx props hss hin hr
+  refine ⟨h1, ?_⟩
+  rw [h2]
+  congr 1
+  apply List.map_congr_left
+  intro i hi
+  rw [particles_getD pa i (hin i hi)]
+
+/-- **conservation**: `extract_particles(idx, dest, props)` followed by
+`remove_particles(idx)` on the source conserves the multiset of records
+restricted to the copied fields (`project names r` = the fields `names` of `r`,
+in the order of `names`) -/
+theorem extract_then_remove_conserves {pa dest dest' pa' : PA} (h : Inv pa) (hd : Inv dest)
+    (idx : List Nat) (props : Option (List String))
+    (hss : ∀ nm ∈ cloneNames pa props, pa.strideOf nm = dest.strideOf nm)
+    (hnames : ∀ nm ∈ cloneNames pa props, nm ∈ dest.props.map Col.name)
+    (hnd : idx.Nodup) (hin : ∀ i ∈ idx, i < pa.n)
+    (he : pa.extractInto idx dest false props = some dest')
+    (hr : pa.removeParticles idx false = some pa') :
+    ((particles dest' ++ particles pa').map (project (cloneNames pa props))).Perm
+      ((particles dest ++ particles pa).map (project (cloneNames pa props))) :=
+  extract_remove_conserves h hd idx props hss hnames hnd hin he hr
+
+/-- **`remove_tagged_particles(tag, align=False)`**: exactly the records
+carrying that tag disappear (the others stay, possibly reordered by the
+swap-removal) -/
+theorem removeTagged_particles {pa pa' : PA} (h : Inv pa) (t : Int)
+    (hr : pa.removeTagged t false = some pa') :
+    (particles pa').Perm ((particles pa).filter (fun r => !(lookupD r "tag" [] == [t]))) :=
+  removeTagged_particles' h t hr
+
+/-- slot 1 of `demoPA` (`x = 13`, `v = [10,11,12]`) extracted into a clone that
+only has `x`: `x` is copied, `tag/pid/gid` take the clone's defaults -/
+example : ((demoPA.emptyClone (some ["x"])).bind
+    (fun d => demoPA.extractInto [1] d false (some ["x"]))).map particles =
+    some [[("tag", [0]), ("pid", [0]), ("gid", [4294967295]), ("x", [13])]] := by decide
+example : (demoPA.removeTagged 0 false).map particles = some
+    [[("tag", [1]), ("pid", [0]), ("gid", [4294967295]), ("x", [12]), ("v", [7, 8, 9])],
+     [("tag", [2]), ("pid", [0]), ("gid", [4294967295]), ("x", [10]), ("v", [1, 2, 3])]] := by
+  decide
+
+/-! ## H. every operation refines the record-list model
+
+The record-list model of one array is `RA`: a default record (field ↦ default
+row, in property order) and a list of records.  `absPA pa` is the view of a real
+array, `absState` of a pool.  `specOp` is the straightforward record-list
+function of every operation; it never looks at flat arrays, strides or
+`num_real_particles`.  Because `align_particles` and the swap-removal of cyarray
+reorder records while indices are positional, the refinement is stated per
+step, from the view of the actual state: `poolEquiv` = slot by slot the same
+default record and the same records up to a permutation. -/
+
+/-- the names `extract_particles` / `empty_clone` copy -/
+def specNames (props : Option (List String)) (a : RA) : List String :=
+  match props with
+  | some ps => ps
+  | none => recKeys a.dflt
+
+/-- **the record-list model**: one operation on a pool of record lists -/
+def specOp (A : List RA) : Op → List RA
+  | .addParticles s _ given => modifySlot A s (specAddParticles given)
+  | .removeParticles s idx _ => modifySlot A s (specRemove idx)
+  | .removeTagged s t _ => modifySlot A s (specRemoveTagged t)
+  | .extend s k => modifySlot A s (specExtend k)
+  | .resize s m => modifySlot A s (specResize m)
+  | .align s => modifySlot A s specAlign
+  | .setTag s t idx => modifySlot A s (specSetTag t idx)
+  | .addProperty s nm _ df da sd => modifySlot A s (specAddProperty nm df da sd)
+  | .removeProperty s nm => modifySlot A s (specRemoveProperty nm)
+  | .addConstant _ _ _ => A
+  | .setProp s nm d => modifySlot A s (specSetProp nm d)
+  | .setOutputs _ _ => A
+  | .addOutputs _ _ => A
+  | .emptyClone s ps =>
+    match A[s]? with
+    | some a => A ++ [specEmptyClone ps a]
+    | none => A
+  | .extract s idx _ ps =>
+    match A[s]? with
+    | some a => A ++ [specExtractInto (specNames ps a) idx a (specEmptyClone ps a)]
+    | none => A
+  | .extractInto s d idx _ ps =>
+    match A[s]?, A[d]? with
+    | some a, some b => A.set d (specExtractInto (specNames ps a) idx a b)
+    | _, _ => A
+  | .append s src _ _ =>
+    match A[s]?, A[src]? with
+    | some a, some b => A.set s (specAppend a b)
+    | _, _ => A
+  | .ensure s src ps =>
+    match A[s]?, A[src]? with
+    | some a, some b => A.set s (specEnsure ps a b)
+    | _, _ => A
+  | .pickle s =>
+    match A[s]? with
+    | some a => A ++ [a]
+    | none => A
+  | .new _ => A ++ [⟨baseDflt, []⟩]
+
+/-- "valid arguments" beyond `validOp`, as the harness generates them: index
+lists are duplicate-free and in range; `extract_particles` names properties
+both arrays have -/
+def goodOp (st : State) : Op → Bool
+  | .removeParticles s idx _ =>
+    match st[s]? with
+    | some pa => decide idx.Nodup && idx.all (fun i => decide (i < pa.n))
+    | none => true
+  | .extractInto s d idx _ ps =>
+    match st[s]?, st[d]? with
+    | some pa, some dd => idx.all (fun i => decide (i < pa.n)) &&
+        (cloneNames pa ps).all (fun nm => pa.hasProp nm && dd.hasProp nm)
+    | _, _ => true
+  | .extract s idx _ _ =>
+    match st[s]? with
+    | some pa => idx.all (fun i => decide (i < pa.n))
+    | none => true
+  | _ => true
+
+/-- the operations whose refinement is proved below -/
+def coveredOp (st : State) : Op → Bool
+  | .addProperty _ _ _ _ _ _ => false
+  | .setProp s nm _ =>
+    match st[s]? with
+    | some pa => !pa.hasProp nm
+    | none => true
+  | .resize _ _ | .setTag _ _ _ | .removeProperty _ _ | .emptyClone _ _ | .extract _ _ _ _
+  | .append _ _ _ _ | .ensure _ _ _ => false
+  | .pickle s =>            -- un-pickling raises when a constant and a property share a name
+    match st[s]? with
+    | some pa => pa.pickle.isSome
+    | none => true
+  | _ => true
+
+/-- FULL STATEMENT (the part for `coveredOp` is proved as
+`refines_record_list_partial`): every valid operation on a pool of coherent
+arrays refines the record-list model. -/
+def refines_record_list : Prop :=
+  ∀ (st : State) (op : Op), (∀ pa ∈ st, Inv pa) → validOp st op = true → goodOp st op = true →
+    poolEquiv (absState (applyOp st op)) (specOp (absState st) op)
+
+theorem refines_record_list_partial (st : State) (op : Op) (hinv : ∀ pa ∈ st, Inv pa)
+    (hv : validOp st op = true) (hg : goodOp st op = true) (hc : coveredOp st op = true) :
+    poolEquiv (absState (applyOp st op)) (specOp (absState st) op) := by
+  unfold applyOp
+  rw [if_neg (by simp [hv])]
+  have some_of : ∀ s : Nat, (st[s]?).isSome = true → ∃ pa, st[s]? = some pa :=
+    fun s h => Option.isSome_iff_exists.mp h
+  cases op with
+  | addParticles s al given =>
+    cases hs : st[s]? with
+    | none => simp [validOp, hs] at hv
+    | some pa =>
+      simp only [hs]
+      have hi := hinv pa (mem_of_getElem?_some hs)
+      have hvv := validOp_addParticles hv hs
+      have hln : ∀ g ∈ given, g.1 ∈ pa.props.map Col.name := by
+        intro g hg
+        cases hl : given.getLast? with
+        | none =>
+          have : given = [] := by simpa using hl
+          subst this; simp at hg
+        | some lst =>
+          obtain ⟨ln, ld⟩ := lst
+          simp only [validOp, hs, hl, Bool.and_eq_true, List.all_eq_true] at hv
+          exact (hasProp_iff pa g.1).mp (hv.1 g hg).1
+      exact refines_setAt hs _ _ (addParticles_isSome pa al given hln)
+        (fun pa' hr => addParticles_refines hi al given hvv hln hr)
+  | removeParticles s idx al =>
+    obtain ⟨pa, hs⟩ := some_of s (by simpa [validOp] using hv)
+    have hi := hinv pa (mem_of_getElem?_some hs)
+    simp only [goodOp, hs, Bool.and_eq_true, decide_eq_true_eq, List.all_eq_true] at hg
+    simp only [hs]
+    exact refines_setAt hs _ _ (removeParticles_isSome pa idx al hg.1 hg.2)
+      (fun pa' hr => removeParticles_refines hi idx al hg.1 hg.2 hr)
+  | removeTagged s t al =>
+    obtain ⟨pa, hs⟩ := some_of s (by simpa [validOp] using hv)
+    have hi := hinv pa (mem_of_getElem?_some hs)
+    simp only [hs]
+    exact refines_setAt hs _ _ (removeTagged_isSome hi t al)
+      (fun pa' hr => removeTagged_refines hi t al hr)
+  | extend s k =>
+    obtain ⟨pa, hs⟩ := some_of s (by simpa [validOp] using hv)
+    have hi := hinv pa (mem_of_getElem?_some hs)
+    simp only [hs]
+    exact refines_set hs _ (RA.equiv_of_eq (extend_refines hi k))
+  | resize s m => simp [coveredOp] at hc
+  | align s =>
+    obtain ⟨pa, hs⟩ := some_of s (by simpa [validOp] using hv)
+    have hi := hinv pa (mem_of_getElem?_some hs)
+    simp only [hs]
+    exact refines_set hs _ (RA.equiv_trans (absPA_align hi) (RA.equiv_trans (RA.equiv_refl _)
+      ⟨(specAlign_equiv _).1.symm, (specAlign_equiv _).2.symm⟩))
+  | setTag s t idx => simp [coveredOp] at hc
+  | addProperty s nm ct df da sd => simp [coveredOp] at hc
+  | removeProperty s nm => simp [coveredOp] at hc
+  | addConstant s nm d =>
+    obtain ⟨pa, hs⟩ := some_of s (by simpa [validOp] using hv)
+    simp only [hs]
+    exact refines_setAt_same hs _ (fun pa' hr => addConstant_abs hr)
+  | setProp s nm d =>
+    obtain ⟨pa, hs⟩ := some_of s (by simpa [validOp] using hv)
+    have hnp : pa.hasProp nm = false := by simpa [coveredOp, hs] using hc
+    simp only [hs]
+    have hspec : specOp (absState st) (.setProp s nm d) = absState st := by
+      show modifySlot (absState st) s (specSetProp nm d) = _
+      unfold modifySlot
+      rw [absState_getElem?, hs]
+      simp only [Option.map_some]
+      have : specSetProp nm d (absPA pa) = absPA pa := by
+        unfold specSetProp
+        rw [if_neg]
+        show ¬ (recKeys (defaultParticle pa)).contains nm = true
+        rw [defaultParticle_keys']
+        have := (hasProp_false_iff pa nm).mp hnp
+        simpa using this
+      rw [this]
+      unfold absState
+      rw [← List.map_set]
+      obtain ⟨hlt, he⟩ := List.getElem?_eq_some_iff.mp hs
+      rw [← he, List.set_getElem_self]
+    rw [hspec]
+    exact refines_setAt_same hs _ (fun pa' hr => setProp_const_abs hnp hr)
+  | setOutputs s ps =>
+    obtain ⟨pa, hs⟩ := some_of s (by simpa [validOp] using hv)
+    simp only [hs]
+    exact refines_setAt_same hs _ (fun pa' hr => setOutputs_abs hr)
+  | addOutputs s ps =>
+    obtain ⟨pa, hs⟩ := some_of s (by simpa [validOp] using hv)
+    simp only [hs]
+    exact refines_setAt_same hs _ (fun pa' hr => addOutputs_abs hr)
+  | emptyClone s ps => simp [coveredOp] at hc
+  | extract s idx al ps => simp [coveredOp] at hc
+  | extractInto s d idx al ps =>
+    cases hs : st[s]? with
+    | none => simp [validOp, hs] at hv
+    | some pa =>
+      cases hd : st[d]? with
+      | none => simp [validOp, hs, hd] at hv
+      | some dd =>
+        have hi := hinv pa (mem_of_getElem?_some hs)
+        have hid := hinv dd (mem_of_getElem?_some hd)
+        have hss := validOp_extractInto hv hs hd
+        simp only [goodOp, hs, hd, Bool.and_eq_true, decide_eq_true_eq, List.all_eq_true] at hg
+        simp only [hs, hd]
+        obtain ⟨pa', hr⟩ := extractInto_isSome pa dd idx al ps (Or.inr hg.2)
+        rw [hr]
+        have := extractInto_refines hi hid idx al ps hss hg.1 hr
+        show poolEquiv (absState (st.set d pa')) _
+        show poolEquiv _ (match (absState st)[s]?, (absState st)[d]? with
+          | some a, some b => (absState st).set d (specExtractInto (specNames ps a) idx a b)
+          | _, _ => absState st)
+        rw [absState_getElem?, absState_getElem?, hs, hd]
+        simp only [Option.map_some]
+        unfold absState
+        rw [List.map_set]
+        refine poolEquiv_set (poolEquiv_refl _) d _ _ ?_
+        have hn : specNames ps (absPA pa) = cloneNames pa ps := by
+          unfold specNames cloneNames
+          cases ps with
+          | none => exact defaultParticle_keys' pa
+          | some l => rfl
+        rw [hn]
+        exact this
+  | append s src al up => simp [coveredOp] at hc
+  | ensure s src ps => simp [coveredOp] at hc
+  | pickle s =>
+    obtain ⟨pa, hs⟩ := some_of s (by simpa [validOp] using hv)
+    have hi := hinv pa (mem_of_getElem?_some hs)
+    simp only [hs]
+    show poolEquiv _ (match (absState st)[s]? with
+      | some a => absState st ++ [a]
+      | none => absState st)
+    rw [absState_getElem?, hs]
+    simp only [Option.map_some]
+    cases hp : pa.pickle with
+    | none => simp [coveredOp, hs, hp] at hc
+    | some pa' =>
+      exact refines_push (some pa') _ ⟨pa', rfl⟩
+        (fun q hq => by cases hq; exact RA.equiv_of_eq (pickle_abs hi hp))
+  | new nm =>
+    show poolEquiv (absState (st ++ [PA.empty nm])) (absState st ++ [⟨baseDflt, []⟩])
+    unfold absState
+    rw [List.map_append]
+    exact poolEquiv_push (poolEquiv_refl _) _ _ (RA.equiv_of_eq (new_abs nm))
+
+/-- **along every history**: at every step of every history from the empty pool,
+the real operation refines the record-list model applied to the view of the
+state it starts from (coherence of that state is `inv_reachable`) -/
+theorem refines_record_list_run (ops : List Op) (op : Op)
+    (hv : validOp (run ops) op = true) (hg : goodOp (run ops) op = true)
+    (hc : coveredOp (run ops) op = true) :
+    poolEquiv (absState (run (ops ++ [op]))) (specOp (absState (run ops)) op) := by
+  have : run (ops ++ [op]) = applyOp (run ops) op := by
+    unfold run; rw [List.foldl_append]; rfl
+  rw [this]
+  exact refines_record_list_partial _ _ (inv_run ops) hv hg hc
+
+/-! ### non-vacuity for H: the demo array, record-list model against the real operation -/
+
+/-- removing slots 2 and 0 then aligning is valid, good and covered; the model
+deletes records 0 and 2 in place, the real array holds the same two records -/
+example : validOp (run (demoOps.take 5)) (.removeParticles 0 [2, 0] true) = true ∧
+    goodOp (run (demoOps.take 5)) (.removeParticles 0 [2, 0] true) = true ∧
+    coveredOp (run (demoOps.take 5)) (.removeParticles 0 [2, 0] true) = true := by decide
+example : (specOp (absState (run (demoOps.take 5))) (.removeParticles 0 [2, 0] true)).map RA.recs =
+    [[[("tag", [0]), ("pid", [0]), ("gid", [4294967295]), ("x", [13]), ("v", [10, 11, 12])],
+      [("tag", [2]), ("pid", [0]), ("gid", [4294967295]), ("x", [10]), ("v", [1, 2, 3])]]] := by
+  decide
+example : (absState (run (demoOps.take 5 ++ [.removeParticles 0 [2, 0] true]))).map RA.recs =
+    [[[("tag", [0]), ("pid", [0]), ("gid", [4294967295]), ("x", [13]), ("v", [10, 11, 12])],
+      [("tag", [2]), ("pid", [0]), ("gid", [4294967295]), ("x", [10]), ("v", [1, 2, 3])]]] := by
+  decide
+/-- the model's `add_particles` on the view of the demo array -/
+example : ((specOp (absState (run (demoOps.take 5)))
+      (.addParticles 0 false [("tag", [1, 0]), ("v", [21, 22, 23, 24, 25, 26])])).map
+      (fun a => a.recs.drop 4)) =
+    [[[("tag", [1]), ("pid", [0]), ("gid", [4294967295]), ("x", [0]), ("v", [21, 22, 23])],
+      [("tag", [0]), ("pid", [0]), ("gid", [4294967295]), ("x", [0]), ("v", [24, 25, 26])]]] := by
+  decide
 
 end PysphVerif.C06
